@@ -80,4 +80,18 @@ theorem exV_ρ : ∀ d, d < 3 → exρ d < 3 ∧
   have : d = 0 ∨ d = 1 ∨ d = 2 := by omega
   rcases this with rfl | rfl | rfl <;> exact ⟨by decide, by decide⟩
 
+theorem exS_wf : MeshWf exS := by
+  refine ⟨rfl, rfl, ⟨rfl, by decide⟩, rfl, ?_, by simp [exS, exMesh, String.toLower], by decide, rfl⟩
+  intro x hx
+  have : x = 0 ∨ x = 1 ∨ x = 2 := by unfold Mesh.ndim Region.ndim exS exMesh at hx; simp at hx; omega
+  rcases this with rfl | rfl | rfl <;> refine ⟨?_, by decide⟩ <;>
+    simp [Region.lo, Region.hi, exS, exMesh]
+
+theorem exV_wf : MeshWf exV := by
+  refine ⟨rfl, rfl, ⟨rfl, by decide⟩, rfl, ?_, by simp [exV, exMesh, String.toLower], by decide, rfl⟩
+  intro x hx
+  have : x = 0 ∨ x = 1 ∨ x = 2 := by unfold Mesh.ndim Region.ndim exV exMesh at hx; simp at hx; omega
+  rcases this with rfl | rfl | rfl <;> refine ⟨?_, by decide⟩ <;>
+    simp [Region.lo, Region.hi, exV, exMesh]
+
 end DFV.C05
